@@ -375,7 +375,20 @@ pub fn make_rec_writer(e: End, wbits: usize, wrapper: &str) -> Box<dyn Wr> {
 // ---------------------------------------------------------------------------
 // Replaying a history on every real backend with every finisher
 
-pub const REAL_BACKENDS: [&str; 5] = ["vec", "vecref", "slice", "adapter", "rec"];
+pub const REAL_BACKENDS: [&str; 6] = ["vec", "vecref", "slice", "adapter", "adapter3", "rec"];
+
+/// A byte sink that accepts at most 3 bytes per write call (legal for std::io::Write).
+pub struct ChunkSink(pub Vec<u8>);
+impl std::io::Write for ChunkSink {
+    fn write(&mut self, buf: &[u8]) -> std::io::Result<usize> {
+        let k = buf.len().min(3);
+        self.0.extend_from_slice(&buf[..k]);
+        Ok(k)
+    }
+    fn flush(&mut self) -> std::io::Result<()> {
+        Ok(())
+    }
+}
 pub const FINISHERS: [&str; 4] = ["flush", "flush2", "into_inner", "drop"];
 
 #[derive(Debug, Clone, PartialEq, Eq)]
@@ -461,6 +474,7 @@ pub fn run_on_backend(e: End, wbits: usize, backend: &str, finisher: &str, ops: 
                     None
                 ),
                 "adapter" => drive!($E, $W, BufBitWriter::<$E, _>::new(WordAdapter::<$W, Vec<u8>>::new(Vec::new())), |b: WordAdapter<$W, Vec<u8>>| b.into_inner(), None),
+                "adapter3" => drive!($E, $W, BufBitWriter::<$E, _>::new(WordAdapter::<$W, ChunkSink>::new(ChunkSink(Vec::new()))), |b: WordAdapter<$W, ChunkSink>| b.into_inner().0, None),
                 "rec" => {
                     let rec = Rec::<$W>::new();
                     let log = rec.log.clone();
